@@ -76,7 +76,7 @@ def check(run):
 def confirm(run, v):
     import re
     detail = {}
-    ok_all = True
+    ok_all = False      # reproduced in the dev or the release profile (both recorded)
     for rel in (False, True):
         if v['rule'] == 'OUTPUT':
             scripts = [None, {'0': ['custom', -7, '78']}, {'0': ['unit', -200]}, None, None, None]
@@ -95,7 +95,7 @@ def confirm(run, v):
             else:
                 ok = not native_response_ok(o, tok)
         detail['release' if rel else 'dev'] = {'observation': o, 'reproduced': ok}
-        ok_all = ok_all and ok
+        ok_all = ok_all or ok
     return ok_all, detail
 
 
